@@ -28,7 +28,7 @@ LEVEL_NOTE = ("Trusted: the value model in props/c16.py. If this is judged to be
               "history-dependent.")
 TIERS = {
     "quick": {"runs": 12000, "max_ops": 40},
-    "thorough": {"runs": 500000, "max_ops": 40, "wall_cap": 1200},
+    "thorough": {"runs": 500000, "max_ops": 80, "wall_cap": 1200},
 }
 RULE = ("program = seeded render-class tree + namespace classes; history = <= max_ops operations "
         "over the pools of created RenderArgs / ArgsNamespace objects; non-trivial = an operation "
